@@ -67,6 +67,10 @@ func DigestPE(r io.Reader, hash crypto.Hash, doPageHash bool) (*PEDigest, error)
 	if err != nil {
 		return nil, err
 	}
+	if doPageHash && hvals.sizeOfHdr > int64(hvals.pageSize) {
+		// the first page hash covers the headers padded to one page; there is no defined table when they do not fit
+		return nil, errors.New("PE headers are larger than a page, cannot compute page hashes")
+	}
 	digester := setupDigester(hash, buf.Bytes(), hvals, sections, doPageHash)
 	// Hash gap between header and first section if it exists
 	nextSection := hvals.sizeOfHdr
